@@ -192,6 +192,16 @@ def marker_pool(rng, n):
             'sys_platform in "lin"', 'extra == "Foo_bar"', 'extra == "foo-bar"', 'python_full_version >= "3.8"',
             'python_full_version >= "3.8.0"', 'os_name != "nt" and os_name != "posix"', 'os_name != "posix" and os_name != "nt"']
     texts.update(base)
+    # one value group built along different routes (seed C13h: an OrderedSet hashing its raw input, duplicates included --
+    # only `|` / `&` of two OVERLAPPING groups feed it duplicates): flat, and as groups of groups that share values
+    vals = ["a", "b", "c", "d"]
+    for var in ("os_name", "sys_platform"):
+        for op, glue in (("==", "or"), ("!=", "and")):
+            g = lambda vs: f" {glue} ".join(f'{var} {op} "{v}"' for v in vs)  # noqa: E731
+            texts.update([g("abc"), g("acb"), f"({g('ab')}) {glue} ({g('bc')})", f"({g('abc')}) {glue} ({g('b')})",
+                          f"({g('a')}) {glue} ({g('abc')})", f"({g('ab')}) {glue} ({g('abc')})", f"({g('ab')}) {glue} ({g('cd')})",
+                          g("abcd"), f"({g('abc')}) {glue} ({g('bcd')})", f"({g('ab')}) {glue} ({g('ab')})", g("ab")])
+    n = max(n, len(texts))
     while len(texts) < n:
         texts.add(mk.marker_text(rng, rng.choice([0, 1, 2])))
     out = []
@@ -270,8 +280,8 @@ def run_c13(run: core.Run, n_markers: int) -> None:
         rep = {"op": "mkeq", "a": ta, "b": tb}
         if eq != (b == a):
             run.fail(core.Failure(f"msym|{ta}|{tb}", f"[{ta}] == [{tb}] is {eq}, converse {b == a}", rep))
-        if eq and hash(a) != hash(b):
-            run.fail(core.Failure(f"mhash|{ta}|{tb}", f"[{ta}] == [{tb}] but hashes differ", rep))
+        if eq and (hash(a) != hash(b) or len({a, b}) != 1 or {a: 1}.get(b) != 1):
+            run.fail(core.Failure(f"mhash|{ta}|{tb}", f"[{ta}] == [{tb}] but hashes differ / they are two set members", rep))
         if eq:
             if any(ev(a, env) != ev(b, env) for env in envs):
                 run.fail(core.Failure(f"meval|{ta}|{tb}", f"[{ta}] == [{tb}] but they evaluate differently", rep))
@@ -722,6 +732,10 @@ def replay(data: dict) -> bool:
             if not mk.known_family(ts, env) and ev(l, env) != ev(rr, env):
                 return True
         return False
+    if r["op"] == "mkeq":
+        a, b = mk.parse_marker(r["a"]), mk.parse_marker(r["b"])
+        eq = (a == b)
+        return eq != (b == a) or (eq and (hash(a) != hash(b) or len({a, b}) != 1)) or not (a == a)
     if r["op"] == "markereq":
         a, b = mk.parse_marker(r["a"]), mk.parse_marker(r["b"])
         eq = (a == b)
